@@ -1,5 +1,6 @@
 """C11 -- requester: well-formed proposal; accepted contexts and service lookup agree.
 Real ClientAE / AE + AssociationRequester + provider against a scripted acceptor (R-codec)."""
+import gc
 import itertools
 import random
 
@@ -18,7 +19,7 @@ RULE = ('cases = sequence of add_scu/add_scp calls (1..4 calls, SOP-class lists 
         '0..4 and, if accepted, which proposed syntax) - every pattern for <= 3 contexts in '
         'thorough, seeded otherwise; non-trivial = >= 2 contexts or a partial acceptance; '
         'distinct = distinct (configuration, reply pattern)'
-        '; a second association after reconfiguration answered the other way round, with every class looked up again; unproposable configurations requested twice')
+        '; a second association after reconfiguration answered the other way round, with every class looked up again; unproposable configurations requested twice; series family: 3-8 short-lived entities one after the other with garbage collection in between')
 ASSUMPTIONS = ['a service is expected from get_scu only for classes configured with add_scu',
                'a configuration that cannot be proposed within ids 1..255 must fail with a '
                'library error before anything is written to the connection']
@@ -53,6 +54,12 @@ def cases(tier, seed):
         k = rnd.choice([1, 2, 3, 10, 40])
         yield dict(retry=True, calls=[('scu', list(range(k)))], ts=rnd.choice([1, 2, 3]),
                    maxlen=rnd.choice([0, 16384]), pattern=None, seed=seed * 100049 + i)
+    # several short-lived entities one after the other (the library's own convenience wrappers
+    # create one per operation): each request is built from the entity that makes it
+    for i in range(60 if tier == 'quick' else 3000):
+        yield dict(series=[(rnd.choice([1, 2, 3]), rnd.choice([0, 1, 2]), rnd.choice([1, 2, 5]))
+                           for _ in range(rnd.randint(3, 8))],
+                   calls=[], ts=0, maxlen=16384, pattern=None, seed=seed * 100057 + i)
     n = 5000 if tier == 'quick' else 150000
     for i in range(n):
         calls = []
@@ -169,9 +176,76 @@ def _retry_case(case):
         world.close()
 
 
+def _series_case(case):
+    from pynetdicom2 import applicationentity, exceptions
+    world = SimWorld('c11/series/%s' % case['seed'])
+    viol = []
+
+    def v(rule, detail):
+        viol.append({'sig': 'C11 %s' % rule, 'detail': '%s\ncase %r' % (detail, case)})
+    try:
+        world.serve_peer(ADDR, lambda sock: peers.ScriptedAcceptor(
+            world.sim, sock, accept=lambda ctxs: [(p_, 0, t_[-1]) for p_, a_, t_ in ctxs],
+            max_length=16384))
+        outs = []
+
+        def user():
+            for k, (tsn, rot, ncls) in enumerate(case['series']):
+                ts = (TS3[rot:] + TS3[:rot])[:tsn]
+                classes = [_uid(100 * k + c) for c in range(ncls)]
+                # not through world.make_ae: nothing but this frame refers to the entity, so it
+                # is gone when the next one is made
+                ae = applicationentity.ClientAE('LOCAL_AE', list(ts), 16384)
+                ae.timeout = 60
+
+                def service(asce, ctx, *a):
+                    return ctx
+                service.sop_classes = classes
+                ae.add_scu(service)
+                o = {'ts': ts, 'classes': classes}
+                outs.append(o)
+                try:
+                    with ae.request_association({'aet': 'REMOTE_AE', 'address': ADDR[0],
+                                                 'port': ADDR[1]}) as assoc:
+                        o['bound'] = dict((c, str(assoc.get_scu(c)().supported_ts))
+                                          for c in classes)
+                except Exception as e:  # pylint: disable=broad-except
+                    o['exc'] = repr(e)
+                del ae, service, assoc
+                # the collector is switched off while a world exists (its timing is not part of
+                # a schedule); here it runs at a fixed point instead, as it would sooner or
+                # later in any long-running application
+                gc.collect()
+        world.spawn(user, 'user')
+        world.run(tmax=900)
+        world.drain(1.0)
+        for k, o in enumerate(outs):
+            p = world.peers[k] if k < len(world.peers) else None
+            if p is None or p.rq is None or 'exc' in o:
+                v('request-failed exc=%s' % str(o.get('exc'))[:24], 'entity %d: %r' % (k, o))
+                break
+            for c in p.rq['contexts']:
+                if sorted(c[2]) != sorted(o['ts']):
+                    v('transfer-syntaxes-not-configured-set family=series',
+                      'entity %d of the series: ctx %r configured %r' % (k, c, o['ts']))
+                    break
+            if sorted(c[1] for c in p.rq['contexts']) != sorted(o['classes']):
+                v('classes-not-proposed-exactly-once dup=False missing=True',
+                  'entity %d of the series: proposed %r' % (k, p.rq['contexts']))
+            bad = [(c, t) for c, t in o.get('bound', {}).items() if t not in o['ts']]
+            if bad:
+                v('lookup-bound-to-wrong-context-or-syntax family=series',
+                  'entity %d: %r' % (k, bad))
+        return _fin(world, viol, case, [0] * len(case['series']))
+    finally:
+        world.close()
+
+
 def run_case(case):
     if case.get('retry'):
         return _retry_case(case)
+    if case.get('series'):
+        return _series_case(case)
     from pynetdicom2 import applicationentity, exceptions
     rnd = random.Random('c11r/%s' % case['seed'])
     world = SimWorld('c11/%s' % case['seed'])
